@@ -370,6 +370,7 @@ pub fn execute(plan: &Plan, trace: bool) -> Exec {
                 return ex;
             }
             let reset_accepted = o.reset_result == Some(true);
+            ex.fault("stream_reset_mid_transfer", reset_accepted as u64);
             match &o.reader_end {
                 Some(Err(StreamReadError::Reset(c))) if c.into_inner() == *code && reset_accepted => ex.probe("reset_seen", 1),
                 Some(Ok(())) if *finish_first && o.reader_bytes.len() == *pre => ex.probe("finish_won_over_reset", 1),
@@ -405,6 +406,7 @@ pub fn execute(plan: &Plan, trace: bool) -> Exec {
                 }
             }
             ex.probe("stop_seen", 1);
+            ex.fault("stream_stopped_mid_transfer", 1);
         }
         Case::Finish { len } => {
             let data = pattern(plan.seed, *len);
@@ -432,6 +434,7 @@ pub fn execute(plan: &Plan, trace: bool) -> Exec {
                 ex.violation("C06/finish-bytes", format!("{role}: after heal reader saw {} of {len} bytes then {:?}", o.reader_bytes.len(), o.reader_end));
             }
             ex.probe("finish_waited_for_ack", 1);
+            ex.fault("finish_future_dropped_and_reissued", matches!(plan.case, Case::FinishReissued { .. }) as u64);
         }
     }
     ex
